@@ -18,6 +18,7 @@ package kernel
 //@ rec Pool(y int) mathint = y <= 0 ? 50000000000000 : Pool(y - 1) - Pool(y - 1) / 10
 //@ spec Size(b int) mathint = Pool(b / 365) / 10 / 365
 //@ rec Cum(n int) mathint = n <= 0 ? 0 : Cum(n - 1) + Size(n)
+//@ reclimit Pool, Cum
 
 //@ func mintBatchSize
 //@   property C25
@@ -62,24 +63,49 @@ package kernel
 //@   requires 0 <= b1 && b1 <= b2
 //@   ensures [never-increase] Size(b1) >= Size(b2)
 
-//@ -- "their cumulative total never exceeds the mint pool": Cum(n) = Size(1) + … + Size(n). The induction carries the stronger
-//@ -- statement that what has been minted in the years before plus the current year's batches so far fits into what left the pool.
+//@ -- "their cumulative total never exceeds the mint pool": Cum(n) = Size(1) + … + Size(n). Year by year: the batches 365*y … 365*y+r of year y
+//@ -- add up to at most (r+1) sizes of that year (YearPart, induction on r; the only product is r * Size(365*y) with a fixed second factor),
+//@ -- a whole year to at most Pool(y)/10 = Pool(y) - Pool(y+1) (YearBudget), all years up to y to at most 500000e8 - Pool(y+1) (CumYears,
+//@ -- induction on y), and Cum is monotone (CumMono).
+//@ lemma CumMono(a mathint, b mathint)
+//@   property C25
+//@   induct b
+//@   uses PoolNonNeg
+//@   requires 0 <= a && a <= b
+//@   ensures [mono] Cum(a) <= Cum(b)
+//@   pattern Cum(a), Cum(b)
+
+//@ lemma YearPart(y mathint, r mathint)
+//@   property C25
+//@   induct r
+//@   uses PoolNonNeg
+//@   requires y >= 0 && 0 <= r && r <= 364
+//@   ensures [same-size] Size(365 * y + r) == Size(365 * y) && Size(365 * y) >= 0
+//@   ensures [unfold] Cum(365 * y + r) == Cum(365 * y + r - 1) + (365 * y + r >= 1 ? Size(365 * y + r) : 0)
+//@   ensures [part] Cum(365 * y + r) - Cum(365 * y - 1) <= (r + 1) * Size(365 * y)
+//@   pattern Cum(365 * y + r)
+
+//@ lemma YearBudget(y mathint)
+//@   property C25
+//@   uses PoolNonNeg, YearPart
+//@   requires y >= 0
+//@   ensures [size] 365 * Size(365 * y) <= Pool(y) / 10
+//@   ensures [next] Pool(y + 1) == Pool(y) - Pool(y) / 10
+//@   ensures [budget] Cum(365 * y + 364) - Cum(365 * y - 1) <= Pool(y) - Pool(y + 1)
+//@   pattern Pool(y + 1)
+
+//@ lemma CumYears(y mathint)
+//@   property C25
+//@   induct y
+//@   uses YearBudget
+//@   requires y >= 0
+//@   ensures [years] Cum(365 * y + 364) <= 50000000000000 - Pool(y + 1)
+//@   pattern Pool(y + 1)
+
 //@ lemma CumBound(n mathint)
 //@   property C25
-//@   induct n
-//@   uses PoolNonNeg
+//@   uses PoolNonNeg, CumMono, CumYears
 //@   requires n >= 0
-//@   ensures [idx] n >= 1 ==> (n % 365 != 0 ==> (n - 1) / 365 == n / 365 && (n - 1) % 365 == n % 365 - 1) &&
-//@       (n % 365 == 0 ==> (n - 1) / 365 == n / 365 - 1 && (n - 1) % 365 == 364)
-//@   ensures [year] n >= 1 && n % 365 == 0 ==> Pool(n / 365) == Pool(n / 365 - 1) - Pool(n / 365 - 1) / 10
-//@   ensures [unfold] n >= 1 ==> Cum(n) == Cum(n - 1) + Size(n)
-//@   ensures [same-year] n % 365 != 0 ==> Cum(n) + Pool(n / 365) <= 50000000000000 + (n % 365 + 1) * Size(n)
-//@   ensures [new-year] n % 365 == 0 ==> Cum(n) + Pool(n / 365) <= 50000000000000 + Size(n)
-//@   ensures [step] Cum(n) + Pool(n / 365) <= 50000000000000 + (n % 365 + 1) * Size(n)
-//@   ensures [size-nonneg] Size(n) >= 0
-//@   ensures [year-part] (n % 365 + 1) * Size(n) <= 365 * Size(n)
-//@   ensures [year-budget] 365 * Size(n) <= Pool(n / 365) / 10
-//@   ensures [next] Pool(n / 365 + 1) == Pool(n / 365) - Pool(n / 365) / 10
 //@   ensures [total] Cum(n) <= 50000000000000 - Pool(n / 365 + 1)
 //@   ensures [within-pool] Cum(n) <= 50000000000000
 
@@ -135,11 +161,10 @@ package kernel
 //@ spec RawWork(lead mathint, sign mathint) mathint = lead * 100000000 * 120 / 100 + (sign > 0 ? sign * 100000000 : 0)
 //@ -- Shape: the four-piece function of kernel/mint.go (a = average work), with its floors exactly as coded.
 //@ -- Share: what a node with shaped work s receives of base b when the shaped works add up to t.
-//@ -- Both are function SYMBOLS with a definitional axiom (not macros), so that the lemmas below can be instantiated by pattern.
+//@ -- Both are function SYMBOLS with a definitional axiom (Share through common.MulDiv), so that the lemmas below can be instantiated by pattern.
 //@ uninterp Shape(a mathint, w mathint) mathint
 //@ axiom forall a, w mathint :: {Shape(a, w)} Shape(a, w) == (w >= 7 * a ? 2 * a : (w >= a ? w / 6 + 5 * a / 6 : (w <= a / 7 ? a / 7 : w)))
-//@ uninterp Share(s mathint, b mathint, t mathint) mathint
-//@ axiom forall s, b, t mathint :: {Share(s, b, t)} Share(s, b, t) == s * b / t
+//@ spec Share(s mathint, b mathint, t mathint) mathint = common.MulDiv(b, s, t)   -- b * s / t: exactly the term (RationalNumber).Product returns
 //@ -- Cap(a, n) = 2*a*n, as a sum: the bound of n shaped works
 //@ rec Cap(a mathint, n int) mathint = n <= 0 ? 0 : Cap(a, n - 1) + 2 * a
 //@ lemma CapClosed(a mathint, n mathint)
@@ -297,7 +322,8 @@ package kernel
 //@   loop 3 invariant forall k int :: rangeindex < k && k < len(accepted) ==> val(mints[k].Work) == RawAt(accepted, WorkDay(timestamp), k)
 //@   loop 3 invariant val(totalW) == SumShaped(accepted, WorkDay(timestamp), val(avg), rangeindex + 1)
 //@   loop 3 invariant val(totalW) >= 0 && val(totalW) <= Cap(val(avg), rangeindex + 1) && (rangeindex >= 0 ==> val(totalW) >= val(avg) / 7)
-//@   -- loop 4: shares
+//@   -- loop 4: shares (the hint names the value rat.Product(base) returns: a ground instance of the definition of Share)
+//@   hint after Product [share-value] val(callresult) == Share(val(m.Work), val(base), val(totalW))
 //@   loop 4 invariant forall k int :: 0 <= k && k <= rangeindex ==>
 //@       val(mints[k].Work) == Share(Shape(val(avg), RawAt(accepted, WorkDay(timestamp), k)), val(base), val(totalW))
 //@   loop 4 invariant forall k int :: rangeindex < k && k < len(accepted) ==> val(mints[k].Work) == Shape(val(avg), RawAt(accepted, WorkDay(timestamp), k))
@@ -320,6 +346,7 @@ package kernel
 
 //@ func (node *Node) lastMintDistribution
 //@   property C25
+//@   trustpre NewIntegerFromString -- (C33) its argument "89.87671232" is a string constant; that it is a non-negative decimal is assumed
 //@   uses MintFloor
 //@   requires node != nil && !isnil(node.persistStore)
 //@   maypanic   -- a storage failure and a recorded batch below 1706 (corrupt store) are fatal by design
@@ -349,9 +376,8 @@ package kernel
 //@     forall i int :: 0 <= i && i < len(node.acceptedNodeStateSequences) ==> PayeesOK(node.acceptedNodeStateSequences[i].NodesWithoutState)
 
 //@ -- ReadLastConsensusSnapshotWithHack: reads the store (and panics on a storage failure); the snapshot it returns exists.
-//@ assume func (node *Node) ReadLastConsensusSnapshotWithHack
-//@   modifies nothing
-//@   ensures result0 != nil && !fresh(result0)
+//@ -- (node *Node) ReadLastConsensusSnapshotWithHack: ONE assumed contract, in zz_contracts_c28_verif.go (it carries this file's clause
+//@ -- `result0 != nil && !fresh(result0)` as well; a second assumed contract here shadowed C28's and broke validateConsensusTransactionReferences)
 
 //@ func (node *Node) buildUniversalMintTransaction
 //@   property C25
@@ -383,16 +409,18 @@ package kernel
 //@       (forall i, j int :: 0 <= i && i < len(accepted) && 0 <= j && j < len(accepted) &&
 //@          old(RawAt(accepted, WorkDay(timestamp), i)) >= old(RawAt(accepted, WorkDay(timestamp), j)) ==> val(result.Outputs[i].Amount) >= val(result.Outputs[j].Amount))
 //@   hint after (*kernel.Node).distributeKernelMintByWorks PayeesOK(accepted)
-//@   hint after (*common.Transaction).AddScriptOutput [all-positive] forall k int :: 0 <= k && k < len(tx.Outputs) ==> tx.Outputs[k] != nil && val(tx.Outputs[k].Amount) >= 1
-//@   hint after (*common.Transaction).AddScriptOutput [kernel-outs] forall k int :: 0 <= k && k < len(mints) && k < len(tx.Outputs) ==> val(tx.Outputs[k].Amount) == val(mints[k].Work)
+//@   hint after (*common.Transaction).AddScriptOutput [all-positive] forall k int :: {tx.Outputs[k]} 0 <= k && k < len(tx.Outputs) ==> tx.Outputs[k] != nil && val(tx.Outputs[k].Amount) >= 1
+//@   hint after (*common.Transaction).AddScriptOutput [kernel-outs] forall k int :: {tx.Outputs[k]} 0 <= k && k < len(mints) && k < len(tx.Outputs) ==> val(tx.Outputs[k].Amount) == val(mints[k].Work)
 //@   hint after (*common.Transaction).AddScriptOutput [unfold] SumOut(tx.Outputs, len(tx.Outputs)) ==
 //@       SumOut(tx.Outputs, len(tx.Outputs) - 1) + val(tx.Outputs[len(tx.Outputs) - 1].Amount)
 //@   loop 0 invariant [tx] tx != nil && fresh(tx) && (cap(tx.Outputs) == 0 || fresh(tx.Outputs)) && len(tx.Outputs) == rangeindex + 1 && tx.Version == common.TxVersionHashSignature &&
 //@       len(tx.Inputs) == 1 && tx.Inputs[0] != nil && tx.Inputs[0].Mint != nil && val(tx.Inputs[0].Mint.Amount) == val(amount) && tx.Inputs[0].Mint.Batch == batch
-//@   loop 0 invariant [outs] forall k int :: 0 <= k && k <= rangeindex ==>
+//@   loop 0 invariant [outs] forall k int :: {tx.Outputs[k]} 0 <= k && k <= rangeindex ==>
 //@       tx.Outputs[k] != nil && allocated(tx.Outputs[k]) && fresh(tx.Outputs[k]) && val(tx.Outputs[k].Amount) >= 1
-//@   loop 0 invariant [outs-eq] forall k int :: 0 <= k && k <= rangeindex ==> val(tx.Outputs[k].Amount) == val(mints[k].Work)
-//@   loop 0 invariant [mints] len(mints) == len(accepted) && (forall k int :: 0 <= k && k < len(mints) ==> MintOf(mints, accepted, k) && val(mints[k].Work) >= 1 && common.AddrPointsOK(&mints[k].Payee))
-//@   loop 0 invariant [mints-sum] SumWork(mints, len(mints)) <= val(kernel)
+//@   loop 0 invariant [outs-eq] forall k int :: {tx.Outputs[k]} 0 <= k && k <= rangeindex ==> val(tx.Outputs[k].Amount) == val(mints[k].Work)
+//@   -- [kept]: the loop writes byte blocks (hash, seed, mask) allocated after it started only, so every key / hash that existed on entry
+//@   -- (the identities and payee keys of the distribution result among them) is unchanged and nothing about `mints` has to be restated;
+//@   -- the amounts (big.Int cells) and the pointer block of `mints` are not written by the loop at all
+//@   loop 0 invariant [kept] forall p *crypto.Key :: {*p} loopentry(allocated(p)) ==> *p == loopentry(*p)
 //@   loop 0 invariant [unfold] SumWork(mints, rangeindex + 1) == SumWork(mints, rangeindex) + (rangeindex >= 0 ? val(mints[rangeindex].Work) : 0)
 //@   loop 0 invariant [total] val(total) >= 0 && val(total) == SumWork(mints, rangeindex + 1) && val(total) == SumOut(tx.Outputs, rangeindex + 1)
